@@ -339,8 +339,12 @@ Definition s_exec_act (s : sstate) (self : option payload) (a : act) : saout :=
                 match svalue b with
                 | None => SAHalt (HFault FkValueMoved o)
                 | Some p =>
-                    s_lift s (s_clone_slots h (slots p)) (fun s1 =>
-                      let p' := {| pid := o'; slots := slots p; script := [] |} in
+                    (* [Clone for Node] is the payload type's own impl, the same
+                       program on both libraries: [cloned_slots] (Model/Machine.v)
+                       says which handles it copies (all of them, or none when
+                       the node clones to a detached node) *)
+                    s_lift s (s_clone_slots h (cloned_slots (slots p))) (fun s1 =>
+                      let p' := {| pid := o'; slots := cloned_slots (slots p); script := [] |} in
                       SAO (s_set_reg (s_set_heap s1 (sheap_of s1 ++ [s_new_box p'])) r (RStrong o'))
                           self RUnit [SFDropStrong o])
                 end
